@@ -15,6 +15,11 @@ from rtypes import Ty, parse_type, strip_generics, generic_args, UNIT
 import srcdefs
 
 
+def split_top_args(s_: str):
+    from mirparse import split_top
+    return split_top(s_, ",")
+
+
 class TranslateError(Exception):
     pass
 
@@ -243,6 +248,9 @@ class ThreadCtx:
 class Translator:
     def __init__(self, mir_text: str, sources: srcdefs.Sources, cfg: Dict[str, Any]):
         self.fns = mirparse.parse_mir(mir_text)
+        for extra in cfg.get("extra_mir", []):
+            for k_, f_ in mirparse.parse_mir(extra).items():
+                self.fns.setdefault(k_, f_)          # a dependency's MIR (e.g. revm-database): the oracle side of differential harnesses
         self.src = sources
         self.cfg = cfg
         self.cap = cfg.get("cap", 3)                     # default container capacity
@@ -671,7 +679,7 @@ class Translator:
                 node.ty = ty
         else:
             try:
-                node = self.alloc(ty, name, [], self.cur.storage)
+                node = self.alloc(ty, name, [], self.cur.storage, getattr(inst, "generics", None))
             except TranslateError:
                 if like is None:
                     raise
@@ -978,7 +986,32 @@ class Translator:
         self._succs = succs
         return order
 
-    def inline(self, fn: Function, args: List[Any], dest: Optional[Loc]):
+    def bind_generics(self, fn: Function, gargs) -> Dict[str, Ty]:
+        """type parameters of a generic fn -> the call site's explicit generic arguments (declared order from the source)"""
+        if not gargs:
+            return {}
+        m = self._IMPL_RE.search(fn.name)
+        names = []
+        fname = fn.name.split("::")[-1]
+        if m:
+            file = m.group(1)
+            rel = file[4:] if file.startswith("src/") else file
+            try:
+                names = self.src.fn_generics(rel, int(m.group(2)), fname)
+            except Exception:
+                names = []
+        last = [a.strip() for a in split_top_args(gargs[-1])] if gargs else []
+        last = [a for a in last if a and not a.startswith("'")]
+        out = {}
+        if names and len(names) == len(last):
+            for n_, a_ in zip(names, last):
+                try:
+                    out[n_] = self.parse_ty(a_)
+                except Exception:
+                    pass
+        return out
+
+    def inline(self, fn: Function, args: List[Any], dest: Optional[Loc], gargs=None):
         """Translate fn's body in place with the given argument values; result copied to dest."""
         key = self._def_key(fn.name) or fn.name
         if key in self.stack:
@@ -987,6 +1020,7 @@ class Translator:
         self.encoded[fn.name] = hashlib.sha256(fn.text.encode()).hexdigest()[:16]
         self.uid += 1
         inst = FnInstance(self, fn, self.uid, self.cur)
+        inst.generics = self.bind_generics(fn, gargs)
         self.emit(f"/* >>> {key} (inst {inst.uid}) */")
         if dest is not None and not dest.idxs and dest.node.ndims == 0 and re.fullmatch(r".*\b[A-Z]\b.*", fn.ret_ty or "") and \
                 re.search(r"(^|[<, (&])[A-Z]($|[>, )])", fn.ret_ty or ""):
@@ -1252,7 +1286,7 @@ class Translator:
         if fn is not None:
             args = [self.eval_operand(inst, a) for a in t.args]
             dest = self.eval_place(inst, t.place) if t.place is not None and self._ret_needed(fn) else None
-            self.inline(fn, args, dest)
+            self.inline(fn, args, dest, gargs=generic_args(t.func))
             return
         # trait method on a generic / impl-Trait receiver: dispatch on the actual receiver layout
         m = re.fullmatch(r"<(.+) as ([A-Za-z_0-9:]+)>::(.+)", key)
@@ -1329,6 +1363,13 @@ class Translator:
                         pass
                 return None
             if f is None:
+                key_ = self.canon_key(strip_generics(self.normalize_callee(closure_val.text.strip())))
+                mdl = self.models.lookup(key_)
+                if mdl is not None:
+                    # a modelled library function used as a function value (e.g. `.map(AccountInfo::has_no_code_and_nonce)`)
+                    import itermodels
+                    self.models_used[key_] = self.models_used.get(key_, 0) + 1
+                    return mdl(self, itermodels.ICtx(self, inst, key_, list(args), dest))
                 raise TranslateError(f"fn item not found: {closure_val.text}")
             return self.inline(f, args, dest)
         loc = None
